@@ -151,3 +151,14 @@ pub proof fn lemma_header_roundtrip(h: Header)
 pub broadcast proof fn lemma_be16_div_mod(v: u16)
     ensures #[trigger] be16((v / 256) as u8, (v % 256) as u8) == v
 {}
+
+// the decoder extracts the opcode / rcode fields with the mask constants; same values as the RFC-diagram form of header_unpack
+pub proof fn lemma_header_decode_bits(f1: u8, f2: u8)
+    ensures (((f1 & 0x78u8) >> 3usize) & 0x0f) == ((f1 >> 3) & 0x0f) & 0x0f,
+            (((f2 & 0x0fu8) >> 0usize) & 0x0f) == (f2 & 0x0f) & 0x0f,
+{
+    assert((((f1 & 0x78u8) >> 3u8) & 0x0f) == ((f1 >> 3u8) & 0x0f) & 0x0f) by(bit_vector);
+    assert((((f2 & 0x0fu8) >> 0u8) & 0x0f) == (f2 & 0x0f) & 0x0f) by(bit_vector);
+    assert(((f1 & 0x78u8) >> 3usize) == ((f1 & 0x78u8) >> 3u8)) by(bit_vector);
+    assert(((f2 & 0x0fu8) >> 0usize) == ((f2 & 0x0fu8) >> 0u8)) by(bit_vector);
+}
